@@ -176,9 +176,9 @@ pub fn check(prop: &'static str, tier: Tier) -> Report {
     known::replay_regressions(prop, &mut report, &|doc| run_doc(prop, doc).1);
 
     let plan: Vec<(Which, u64, usize)> = match (prop, tier) {
-        ("C07", Tier::Quick) => vec![(Which::B, 2500, 1200)],
+        ("C07", Tier::Quick) => vec![(Which::B, 6000, 1200)],
         ("C07", Tier::Thorough) => vec![(Which::B, 40_000, 2000)],
-        (_, Tier::Quick) => vec![(Which::A, 6000, 1200), (Which::B, 2000, 1200)],
+        (_, Tier::Quick) => vec![(Which::A, 10_000, 1200), (Which::B, 3000, 1200)],
         (_, Tier::Thorough) => {
             vec![(Which::A, 150_000, 3000), (Which::B, 40_000, 3000)]
         }
